@@ -96,6 +96,15 @@ func secRun(in []byte) (interface{}, error) {
 		}
 		paths = append(paths, "sync: checkpoint load, PSYNC, full sync, incremental sync, drop + reconnect")
 	}
+	if raw, ok := cfg.Sub["offsets-badauth"]; ok {
+		// the same whole run with an auth command the servers do not know: every connection is refused or unauthenticated, the
+		// syncer reports the failures and restarts until the budget is used up
+		if _, err := offRun(raw); err != nil {
+			return nil, err
+		}
+		takeAborts()
+		paths = append(paths, "sync with an unknown auth command: failed checkpoint load / connection errors / restarts")
+	}
 	if raw, ok := cfg.Sub["fs"]; ok {
 		if _, err := fsRun(raw); err != nil {
 			return nil, err
@@ -149,6 +158,15 @@ func secRun(in []byte) (interface{}, error) {
 			runAbortable(func() {
 				if c, err := utils.OpenRedisConn([]string{a2}, at, pw, false, false); err == nil && c != nil {
 					c.Do("ping")
+					c.Close()
+				}
+			})
+			// ... and the callers that report a failed connection: checkpoint load, a dump-style SYNC connection
+			runAbortable(func() {
+				checkpoint.LoadCheckpoint(0, "10.1.1.1:6379", []string{a2}, at, pw, utils.CheckpointKey, false, false)
+			})
+			runAbortable(func() {
+				if c, _ := utils.OpenSyncConn(a2, at, pw, false); c != nil {
 					c.Close()
 				}
 			})
